@@ -66,12 +66,19 @@ theorem lag_gates_step (prog : Prog) (ord : Oracle) (t : Nat) (gs : List (List E
     · have : ¬ l > tol := by omega
       simp only [hc, ht, this, ite_false]; exact ⟨trivial, trivial⟩
 
-/-- **init_syncs_first** — initialisation writes the start time, calls `synchronize(start)` once and runs no handler
-before it: the log of the initial state is `Ext ++ [sync t0, setTime t0]`. -/
+/-- **init_syncs_first** — initialisation writes the start time and calls `synchronize(start)` once before any `init`
+code of a model runs (the init scripts of the models run on the state left by the synchronisation and see the start
+time); nothing else is logged: the log of the initial state is `Ext ++ [sync t0, setTime t0]`. -/
 theorem init_syncs_first (prog : Prog) (t0 : Nat) (tol : Option Nat) :
-    ∃ X, (initSim prog t0 tol).log = X ++ [Obs.sync t0, Obs.setTime t0] ∧ ∀ o ∈ X, o.isExt := by
+    (∃ X, (initSim prog t0 tol).log = X ++ [Obs.sync t0, Obs.setTime t0] ∧ ∀ o ∈ X, o.isExt) ∧
+    initSim prog t0 tol = runInits prog prog.inits (doSync prog t0 (writeTime t0 (St.init t0 tol))).1 ∧
+    (initSim prog t0 tol).now = t0 := by
   obtain ⟨X, hX, hXp⟩ := doSync_shape prog t0 (writeTime t0 (St.init t0 tol))
-  exact ⟨X, by unfold initSim; rw [hX]; simp [writeTime, St.init], hXp⟩
+  have h0 : Inv (writeTime t0 (St.init t0 tol)) := by
+    refine ⟨?_, ?_, ?_, ?_⟩ <;> simp [writeTime, St.init, Sorted]
+  refine ⟨⟨X, ?_, hXp⟩, rfl, init_now prog t0 tol⟩
+  unfold initSim
+  rw [(runInits_inv prog _ _ (doSync_inv prog t0 _ h0).1).2.2, hX]; simp [writeTime, St.init]
 
 /-- **sync_argument_is_new_time** — the time passed to `synchronize` by a step is the time the step moves to, which is
 strictly later than the previous time; the final jump of `step_until` synchronises on the target.  Hence
